@@ -232,7 +232,10 @@ pub fn gen_case(prop: &str, seed: u64, tier: &str, run: u64) -> Case {
             p = crash_profile(thorough);
             p.max_ops = 8;
             let errno = *rng.pick(&[libc::EIO, libc::ENOSPC, libc::EMFILE, libc::EACCES]);
-            mode = Mode::Err { site: SiteSel::All { max: if thorough { 400 } else { 120 }, sseed: rng.next() }, errno, suffix_seed: rng.next() };
+            // one run in three: a second failing call in a later operation (two failed operations in a
+            // row, each hit by a single failing call)
+            let second_gap = if rng.chance(1, 3) { Some(rng.below(9)) } else { None };
+            mode = Mode::Err { site: SiteSel::All { max: if thorough { 400 } else { 120 }, sseed: rng.next() }, errno, suffix_seed: rng.next(), second_gap };
         }
         "C16" => {
             if rng.chance(1, 5) {
@@ -314,7 +317,8 @@ pub fn gen_case(prop: &str, seed: u64, tier: &str, run: u64) -> Case {
                 p.max_ops = 7;
                 p.n_choices = vec![1, 2, 3, 4, 5];
                 let errno = *rng.pick(&[libc::EIO, libc::ENOSPC]);
-                mode = Mode::Err { site: SiteSel::All { max: if thorough { 200 } else { 50 }, sseed: rng.next() }, errno, suffix_seed: rng.next() };
+                let second_gap = if rng.chance(1, 2) { Some(rng.below(9)) } else { None };
+                mode = Mode::Err { site: SiteSel::All { max: if thorough { 200 } else { 50 }, sseed: rng.next() }, errno, suffix_seed: rng.next(), second_gap };
             }
             0 => {
                 p.w_reopen = 10;
